@@ -89,6 +89,7 @@ class Ref:
 # ---------------------------------------------------------------- judge
 _gu = None
 _budget = None
+_dead = {}
 
 
 def gu():
@@ -141,8 +142,13 @@ def judge_graph(n, adj, col, form='set', pairs=True, tag='exh'):
                       size=size)
 
     def check(fname, args, want, norm=lambda x: x, kindf=None, limit=None):
-        lim = limit or 20000 * (n + 1)
+        lim = limit or (2000 + 200 * (n + 1) * (n + 1))
+        if _dead.get(fname, 0) >= 25:
+            col.feature('calls_skipped_after_25_nonreturns:' + fname)
+            return
         st, got, steps = call(getattr(g, fname), lim, G, *[lab(a) for a in args])
+        if st in ('budget', 'recursion'):
+            _dead[fname] = _dead.get(fname, 0) + 1
         col.case(key=(tag, n, _enc(adj), form, fname), nontrivial=nontriv,
                  sample={'graph': case_graph, 'query': fname, 'args': [lab(a) for a in args],
                          'answer': _j(got) if st == 'ok' else st})
@@ -179,13 +185,13 @@ def judge_graph(n, adj, col, form='set', pairs=True, tag='exh'):
     for v in range(n):
         desc = {lab(j) for j in range(n) if ref.reach0(v, j)}
         paths = simple_paths(adj, v)
-        plimit = 400 * (n + 2) * (len(paths) + 2) * (n + 2)
-        check('find_all_reachable', (v,), desc, set, setdiff_kind, limit=plimit * (len(paths) + 2))
+        plimit = 2000 + 60 * (n + 2) * (len(paths) + 2)
+        check('find_all_reachable', (v,), desc, set, setdiff_kind, limit=plimit * (len(paths) + 2) // 4 + plimit)
         check('find_all_bi_reachable', (v,),
               {lab(j) for j in range(n) if ref.reach0(v, j) or ref.reach0(j, v)}, set, setdiff_kind)
         check('find_all_connected', (v,),
               {lab(j) for j in range(n) if ref.comp[j] == ref.comp[v]}, set, setdiff_kind,
-              limit=20000 * (n + 1) * (n + 1))
+              limit=2000 + 400 * (n + 1) ** 3)
         srcs = {lab(j) for j in range(n) if ref.indeg[j] == 0 and ref.reach0(j, v)}
 
         def norm_sources(x):
@@ -220,7 +226,7 @@ def judge_graph(n, adj, col, form='set', pairs=True, tag='exh'):
                 return 'non-maximal-path-kept' if (gs - ws) <= allp else 'non-path'
             return 'maximal-path-dropped'
         check('find_longest_paths', (v,), maximal, norm_paths, longest_kind,
-              limit=plimit * (len(paths) + 2))
+              limit=plimit * (len(paths) + 2) // 4 + plimit)
 
 
 def judge_dfs(n, adj, extra_targets, col, tag='dfs'):
@@ -238,7 +244,7 @@ def judge_dfs(n, adj, extra_targets, col, tag='dfs'):
     nontriv = any(j != i for i in range(n) for j in adj[i])
     for s in range(n):
         want = {lab(j) for j in range(m) if ref.r[s][j] and j != s}
-        st, got, steps = call(g.dfs, 20000 * (m + 1), G, lab(s))
+        st, got, steps = call(g.dfs, 2000 + 200 * (m + 1) ** 2, G, lab(s))
         col.case(key=(tag, n, extra_targets, _enc(adj)), nontrivial=nontriv,
                  sample={'edge_graph': case_graph, 'query': 'dfs', 'source': lab(s),
                          'answer': sorted(got) if st == 'ok' else st})
